@@ -702,8 +702,9 @@ impl MDL {
                 for i in 0..model.meshes[j as usize].submesh_count {
                     submeshes.push(SubMesh {
                         submesh_index: model.meshes[j as usize].submesh_index as usize + i as usize,
-                        index_count: model.submeshes
-                            [model.meshes[j as usize].submesh_index as usize + i as usize]
+                        index_count: model
+                            .submeshes
+                            .get(model.meshes[j as usize].submesh_index as usize + i as usize)?
                             .index_count,
                         index_offset: model.submeshes
                             [model.meshes[j as usize].submesh_index as usize + i as usize]
